@@ -23,6 +23,8 @@ FUNCTIONS = L.FUNCTIONS + ["redun.scheduler.Scheduler._reject_job_main_thread (r
                            "Scheduler.run (raising)", "redun.backends.db.RedunBackendDb.check_cache", "redun.scheduler.ErrorValue"]
 ASSUMPTIONS = L.ASSUMPTIONS + [
     "error objects: an ordinary exception subclass and one that carries an unpicklable attribute (a lock)",
+    "c12_reuse: second template on the stock scheduler and executors (vp/harness/reuse.py): a failing call handled once by catch "
+    "and reached again later (same expression or equal call) caught or uncaught",
     "_get_cache kernel: check_cache stubbed to return a solver-chosen result kind (value / ErrorValue / invalid file value) and "
     "cache type (MISS / CSE / SINGLE / ULTIMATE)",
 ]
@@ -257,7 +259,26 @@ _Q = [(3, 0, 0, 0, 0, 0, 4, ONEFAIL3), (3, 0, 0, 0, 1, 0, 4, ONEFAIL3), (3, 0, 0
       (3, 0, 0, 0, 0, 1, 4, ONEFAIL3), (3, 3, 0, 0, 0, 0, L.NQ, None), (3, 2, 0, 1, 1, 0, L.NQ, None)]
 _T = _Q + [(3, 0, 1, 1, 0, 0, 4, ONEFAIL3)] + [(3, f, 0, form, m, 0, len(B), None) for f in range(len(B)) for form in (0, 2) for m in (0, 1)] + [
     (3, 0, e, 0, 1, 0, 4, ONEFAIL3) for e in (1, 2)] + [(4, 0, 0, 0, 0, 0, 4, [B[0], B[3], B[1], B[1]])]
+def c12_reuse(k: int) -> bool:
+    """
+    post: _
+    """
+    def body():
+        from vp.harness import reuse as R
+        kind_i = SL()
+        second_i = choose(len(R.SECOND), "second_use")
+        form_i = choose(len(R.FORMS), "form")
+        return native(lambda: R.run_case(kind_i, second_i, form_i)[0])
+    return guard(body, k=k)
+
+
 CONDITIONS = [
+    Condition(c12_reuse, slices=[0, 2, 4], timeout=200,
+              bounds="slice = kind of the failing task (plain / cache_scope NONE / async def); the failing call is used in "
+                     "catch(ok(x), ...) and reached a second time - same expression object or fresh equal call - in a solver-chosen "
+                     "later position (cond branch caught / uncaught, second element of seq, follow-up task, same sweep); stock "
+                     "scheduler and executors: an uncaught second use makes run raise the same error, every job of the failing call "
+                     "is recorded FAILED with an end time"),
     Condition(c12_propagation, slices=_Q, thorough_slices=_T, timeout=300, thorough_timeout=2400, bounds=L.CONDITIONS[0].bounds),
     Condition(c12_history, slices=[(3, 1), (3, 0)], thorough_slices=[(4, 1), (4, 0)], timeout=200, thorough_timeout=1200,
               bounds="slice = (executions, check_valid shallow?): every history of executions of one call, each with the body "
@@ -267,6 +288,11 @@ CONDITIONS = [
 
 
 def replay(cond, args, extra):
+    if cond == "c12_reuse":
+        from vp.harness import reuse as R
+        ch = [c[1] for c in extra["choices"]]
+        ok, detail = R.run_case(extra["slice"], ch[0], ch[1])
+        return (not ok), detail, None
     if cond == "c12_history":
         n, shallow = extra["slice"]
         steps = [HSTEPS[c[1]] for c in extra["choices"]][:n]
